@@ -70,6 +70,9 @@ def detect(name, checks=None, tier='quick'):
     d = os.path.join(SEEDED, name)
     meta = json.load(open(os.path.join(d, 'meta.json')))
     checks = checks or [meta['property']]
+    import fcntl
+    lock = open('/tmp/vt_repo.lock', 'w')
+    fcntl.flock(lock, fcntl.LOCK_EX)          # /repo is shared: one detection at a time
     rc, o = sh(['git', '-C', '/repo', 'status', '--porcelain', '--untracked-files=no'])
     if o.strip():
         raise SystemExit('/repo is not clean: ' + o)
